@@ -31,7 +31,7 @@ Definition run_wn (ws : list (bytes * nat)) (ops : list wop) : jv :=
        jv_outcome jv_state (wexec [] ops) ].
 
 (* public functions: [model trace; spec trace] *)
-Definition run_pub (fixed : bool) (ops : list pop) : jv :=
-  JL [ JL (map (jv_outcome jv_pobs) (ptrace fixed [] ops));
+Definition run_pub (legacy : bool) (ops : list pop) : jv :=
+  JL [ JL (map (jv_outcome jv_pobs) (ptrace legacy [] ops));
        (if forallb pop_ok ops
         then JL (map (fun o => jv_outcome jv_pobs (Val o)) (spec_ptrace [] ops)) else jnone) ].
